@@ -282,6 +282,13 @@ func (s *codecSys) Do(a map[string]any, _ func()) ([]Obs, error) {
 			o["data"] = len(cd.Data)
 			o["exact"] = declared <= len(body) && bytes.Equal(cd.Data, body[:declared])
 		}
+		// the same bytes as the front of a larger receive buffer (what every reader hands over: buf[:n]), the rest of
+		// which holds an older, longer message: what lies beyond the received bytes is not part of the message
+		big := append(append(make([]byte, 0, len(buf)+70000), buf...), bytes.Repeat([]byte{0xEE}, 70000)...)
+		cd2 := proto.ChannelData{Raw: big[:len(buf)]}
+		err2 := cd2.Decode()
+		o["capsame"] = (err2 == nil) == (err == nil) && proto.IsChannelData(big[:len(buf)]) == proto.IsChannelData(buf) &&
+			(err2 != nil || bytes.Equal(cd2.Data, cd.Data))
 
 		return []Obs{o}, nil
 	case "AttrRaw":
@@ -294,6 +301,10 @@ func (s *codecSys) Do(a map[string]any, _ func()) ([]Obs, error) {
 			raw = bytes.Repeat([]byte{0xff}, size)
 		default:
 			raw = s.fill(size, "raw")
+		}
+		if fill == "rbit" && size > 0 { // only the R bit of EVEN-PORT (RFC 5766 14.6), the reserved bits zero
+			raw = make([]byte, size)
+			raw[0] = 0x80
 		}
 		fam := map[string]byte{"fam4": 1, "fam6": 2, "famBad": 7}[fill]
 		if fam != 0 && size > 0 {
@@ -373,12 +384,20 @@ func (s *codecSys) Check(e Edge, obs []Obs) []Mismatch {
 		} else if b(o, "ok") && (toInt(o["data"]) != toInt(want["data"]) || !b(o, "exact")) {
 			ms = append(ms, Mismatch{"codec", fmt.Sprintf("%s: decoded %v bytes, spec exactly the %v declared", desc, o["data"], want["data"])})
 		}
+		if v, ok := o["capsame"].(bool); ok && !v {
+			ms = append(ms, Mismatch{"codec", fmt.Sprintf("%s: the outcome depends on what lies beyond the received bytes in the receive buffer (spare capacity of the slice)", desc)})
+		}
 	case "attr":
 		if e, _ := o["err"].(string); strings.HasPrefix(e, "PANIC") {
 			ms = append(ms, Mismatch{"codec", fmt.Sprintf("%s: GetFrom panics instead of returning an error (%v)", desc, e)})
 		}
 		if b(o, "ok") != b(want, "ok") {
 			ms = append(ms, Mismatch{"codec", fmt.Sprintf("%s: GetFrom ok=%v (err %v, value %v), spec ok=%v", desc, o["ok"], o["err"], o["got"], want["ok"])})
+		}
+		if r, has := want["reserve"]; has && b(o, "ok") && r != "free" {
+			if got := fmt.Sprint(o["got"]); (r == "yes") != (got == "true") {
+				ms = append(ms, Mismatch{"codec", fmt.Sprintf("%s: decoded as %q, the R bit says reserve=%v (a silently different value)", desc, got, r)})
+			}
 		}
 	case "attrrt":
 		if !b(o, "same") {
